@@ -274,6 +274,26 @@ Theorem C15_privileged_iff_op : forall ops w i x,
 Proof. exact privileged_iff_op. Qed.
 Print Assumptions C15_privileged_iff_op.
 
+(* every field of a relayed message that is not copied from the sender's
+   message is the server's.  The model's message record has no privileged /
+   time / permissions / status / error field at all: a client's claims there
+   cannot reach any step (the `chat` driver sends them, untraced) *)
+Theorem C15_relayed_fields : forall c m,
+  let x := chat_out c m in
+  o_priv x = mem "op" (c_perms c) /\
+  o_perms x = [] /\ o_group x = "" /\ o_error x = "" /\ o_locked x = false /\
+  o_id x = (if String.eqb (m_type m) "chat" && Signal.is_empty (m_dest m) && Signal.is_empty (m_id m)
+            then "?" else m_id m) /\
+  o_type x = m_type m /\ o_kind x = m_kind m /\ o_source x = m_source m /\
+  o_dest x = m_dest m /\ o_user x = m_username m /\ o_value x = value_text (m_value m).
+Proof. exact relayed_fields. Qed.
+Print Assumptions C15_relayed_fields.
+
+Theorem C15_privileged_independent_of_message : forall c m m',
+  o_priv (chat_out c m) = o_priv (chat_out c m').
+Proof. exact privileged_independent_of_message. Qed.
+Print Assumptions C15_privileged_independent_of_message.
+
 (* the server's own messages: no source; its usermessages (error, kicked,
    warning, userinfo, token, tokenlist, clearchat) are privileged by
    construction; its only chat message (the subgroup listing sent to the
